@@ -913,6 +913,8 @@ def r24_call_shim(src, item, ed, opts):
             raise Unsupported(f"shim kind {kind}")
         idxs = [sp["n"]] if "n" in sp else list(range(len(c)))
         if "n" in sp and sp["n"] >= len(c):
+            if sp.get("optional"):
+                continue
             raise LostAnchor(f"{kind} site #{sp['n']} ({sp.get('method') or sp.get('func') or sp.get('name') or sp.get('op')}) of {item['path']}")
         # a shim named by callee/receiver/operand text that matches nothing is simply not applied (the code
         # that needed it is gone; what replaced it is judged by the verifier as it stands); `required=true`
